@@ -279,6 +279,11 @@ def check_one(case, blk, sim, ctx):
         try:
             if op == 'put':
                 ret = ev.send(arg, **kw)
+            elif arg is None and k % 4 == 2:
+                # events sent by other blocks carry the sender's output as 'value' (and more):
+                # for inc/dec/reset these items are just ignored
+                ctx.count('events_with_foreign_value_item')
+                ret = ev.send(57, previous=3, trigger='output', **kw)
             elif arg is None:
                 ret = ev.send(**kw)
             else:
